@@ -137,7 +137,7 @@ func (e *Engine) solveObligations(obls []*Obligation, axioms, assumes []*Term, d
 		go func() {
 			defer wg.Done()
 			defer func() { <-sem }()
-			f := filepath.Join(dir, fmt.Sprintf("o%04d.smt2", i))
+			f := filepath.Join(dir, sanitize(o.ID)+".smt2")
 			os.WriteFile(f, []byte("; "+o.ID+"\n"+scripts[i]), 0o644)
 			r := runPortfolio(f, timeoutS, needAll)
 			mu.Lock()
